@@ -89,12 +89,13 @@ func (r *Runtime) Stop() {
 
 // Hooks are the plugin-side observation points; nil hooks are no-ops.
 type Hooks struct {
-	Sync   func(pods []*api.PodSandbox, ctrs []*api.Container) error
-	Pod    func(pod *api.PodSandbox) // RunPodSandbox, UpdatePodSandbox, StopPodSandbox
-	Create func(pod *api.PodSandbox, ctr *api.Container)
-	Update func(pod *api.PodSandbox, ctr *api.Container)
-	Stop   func(pod *api.PodSandbox, ctr *api.Container)
-	Start  func(pod *api.PodSandbox, ctr *api.Container)
+	Configure func() // runs inside the plugin's Configure handler (stub.Start is still in progress)
+	Sync      func(pods []*api.PodSandbox, ctrs []*api.Container) error
+	Pod       func(pod *api.PodSandbox) // RunPodSandbox, UpdatePodSandbox, StopPodSandbox
+	Create    func(pod *api.PodSandbox, ctr *api.Container)
+	Update    func(pod *api.PodSandbox, ctr *api.Container)
+	Stop      func(pod *api.PodSandbox, ctr *api.Container)
+	Start     func(pod *api.PodSandbox, ctr *api.Container)
 }
 
 // Plugin is an in-process plugin connected through the real stub. It implements Configure,
@@ -108,15 +109,16 @@ type Plugin struct {
 	once      sync.Once
 }
 
-func NewPlugin(sock, idx, name string, h Hooks) (*Plugin, error) {
+func NewPlugin(sock, idx, name string, h Hooks, extra ...stub.Option) (*Plugin, error) {
 	Quiet()
 	p := &Plugin{Idx: idx, Name: name, H: h, closed: make(chan struct{})}
-	s, err := stub.New(p,
+	opts := []stub.Option{
 		stub.WithPluginName(name),
 		stub.WithPluginIdx(idx),
 		stub.WithSocketPath(sock),
 		stub.WithOnClose(func() { p.once.Do(func() { close(p.closed) }) }),
-	)
+	}
+	s, err := stub.New(p, append(opts, extra...)...)
 	if err != nil {
 		return nil, err
 	}
@@ -125,6 +127,9 @@ func NewPlugin(sock, idx, name string, h Hooks) (*Plugin, error) {
 }
 
 func (p *Plugin) Configure(context.Context, string, string, string) (api.EventMask, error) {
+	if p.H.Configure != nil {
+		p.H.Configure()
+	}
 	return 0, nil
 }
 
